@@ -6,7 +6,8 @@
    contents against the model's prediction).
 
    The model describes the REPAIRED code.  Before 8880f0d (Node.done never reset; the stale worker of a failed attempt
-   tore down after handing the node back) and f5eca82 (capture through an undrained pipe) the statement below was false
+   tore down after handing the node back), f5eca82 (capture through an undrained pipe) and 78722d0 (a write error of the
+   stdout: redirect ended the copy to the log as well) the statements below were false
    of the faithful model (F12a, F12b, F12c - refuted by witnesses, each replayed on the real code); those witnesses
    are now the positive Examples at the end. *)
 From Coq Require Import List NArith.
@@ -33,6 +34,16 @@ Theorem C12_teardown_flushes_log : forall (A : Type) (s : st A) (lw lf path : na
   dsk A (teardown A s) path = dsk A s path ++ bl.
 Proof. exact teardown_flushes_log. Qed.
 Print Assumptions C12_teardown_flushes_log.
+
+(* ... and not only at teardown: while the step prints, every chunk handed to the MultiWriter [log; best-effort stdout;
+   capture?] reaches the log sink (file ++ buffer) and no write reports an error, whatever state the stdout: writer is in
+   and whenever its target starts to reject writes (MFail, at any point of the event sequence).  Together with
+   C12_teardown_flushes_log: the log file receives everything printed regardless of redirect write errors. *)
+Theorem C12_log_gets_all : forall (A : Type) (l_tail : list leaf) (evs : list (mev A)) (s : st A) (lw lf path ow of : nat) (L : list A),
+  l_tail = [] \/ l_tail = [LCap] -> ow <> lw -> of <> lf -> log_good A s lw lf path ow L ->
+  log_good A (fold_left (mstep A (LBuf lw :: LBest ow :: l_tail) of) evs s) lw lf path ow (L ++ written A evs).
+Proof. exact log_gets_all. Qed.
+Print Assumptions C12_log_gets_all.
 
 (* the sequence that reaches the log is an order-preserving merge of the attempt's stdout and - unless `stderr:` is
    configured - its stderr: every byte of either stream is there, in order *)
@@ -77,6 +88,14 @@ Example C12_teardown_log_with_failing_stdout :
   let s' := match n_outF (nd nat s) with Some f => close nat s f | None => s end in
   dsk nat (teardown nat s') (logpath nat s') = [1; 2; 3; 4] /\ dsk nat (teardown nat s') P_STDOUT = [].
 Proof. exact teardown_log_with_failing_stdout. Qed.
+(* before fix 78722d0 the first failed write of the stdout: redirect ended the copy: the log lost what followed *)
+Example C12_failing_stdout_beyond_buffer_fixed :
+  let c := mkc true false false false in
+  let s0 := exec nat c init [ASetup nat 0; AStart nat] in
+  let s1 := match n_outF (nd nat s0) with Some f => close nat s0 f | None => s0 end in
+  let s2 := exec nat c s1 [AChunk nat Out (repeat 1 3000); AChunk nat Err (repeat 2 3000); AChunk nat Out [3]; AEnd nat; ATeardown nat] in
+  dsk nat s2 (logpath nat s2) = repeat 1 3000 ++ repeat 2 3000 ++ [3] /\ dsk nat s2 P_STDOUT = [].
+Proof. exact failing_stdout_beyond_buffer_fixed. Qed.
 (* non-vacuity: every setting on, three attempts *)
 Example C12_nonvacuous :
   let c := mkc true true true true in
